@@ -114,8 +114,9 @@ def gen_ovf(rng):
     n_files = rng.randrange(0, 5)
     files = {f"file{i}": rng.choice(NAMES) + str(i) for i in range(n_files)}
     disks = {}
+    shared_ids = rng.random() < 0.3  # disk ids and file ids are separate name spaces: the same identifier may denote a disk and a different file
     for i in range(rng.randrange(0, n_files + 1)):
-        disks[f"vmdisk{i}"] = rng.choice(list(files))
+        disks[f"file{(i + 1) % n_files}" if shared_ids else f"vmdisk{i}"] = rng.choice(list(files))
     items = []
     expected = []
     iid = 1
